@@ -22,8 +22,9 @@ ID = "C13"
 def regen(ctx):
     """coq/C13/Model.v takes the bound expressions of _cffi_to_c_SIGNED_FN/_UNSIGNED_FN from coq/C03/Gen.v (A1's
     regenerated model): re-run that regenerator so that the C13 theorems are checked against today's source text"""
-    from props import c03_regen
+    from props import c03_regen, c13_regen
     c03_regen.regen(ctx, vlib)
+    c13_regen.regen(ctx, vlib)       # coq/C13/Gen.v: the array-flattening loops of fb_fill_type
 
 
 class Unmodelled(Exception):
@@ -75,7 +76,19 @@ def ctype_lit(t):
         return "(Struct %d %s)" % (struct_id(t), clist([prim_lit(ft) for fn, ft in cc.STRUCTS[t]]))
     if k == 'fnptr':
         return "FnPtr"
+    if k == 'astruct':      # array fields flattened (no padding): the model sees the items as consecutive fields
+        return "(Struct %d %s)" % (100 + sorted(cc.ASTRUCTS).index(t), clist([prim_lit(ft) for ft in cc.ASTRUCTS[t][1]]))
     raise Unmodelled(t)
+
+
+def flatten_init(spec):
+    """nested list initializer -> flat list of item specs"""
+    if spec[0] in ("list", "tuple"):
+        out = []
+        for x in spec[1]:
+            out += flatten_init(x)
+        return out
+    return [spec]
 
 
 def dbits(x):
@@ -127,6 +140,8 @@ def encode_item(t, spec):
             return struct.pack("<d", x)
         if t == 'float':
             return struct.pack("<I", f32(x)[0])
+    if k == 'astruct':
+        return b"".join(encode_item(ft, fs) for ft, fs in zip(cc.ASTRUCTS[t][1], flatten_init(spec)))
     if k == 'struct':
         out = b""
         off = 0
@@ -201,6 +216,9 @@ def pyval_lit(spec):
         return "(PyCArr %s %s)" % (item_lit(base), zl(mem))
     if t == "null":
         return "(PyCPtr IVoid true [])"
+    if t == "deref" and spec[1] in cc.ASTRUCTS:
+        vals = [int.from_bytes(encode_item(ft, fs), "little") for ft, fs in zip(cc.ASTRUCTS[spec[1]][1], flatten_init(spec[2]))]
+        return "(PyCStruct %d %s)" % (100 + sorted(cc.ASTRUCTS).index(spec[1]), zl(vals))
     if t == "deref":
         vals = []
         for (fn, ft), fs in zip(cc.STRUCTS[spec[1]], spec[2][1]):
@@ -302,6 +320,8 @@ def gen_value(rng, t, cat):
                            ["new", "int *", ["int", 0]], ["cast", "int", ["int", 3]]])
     if k == 'struct':
         return gen_struct_value(rng, t, cat)
+    if k == 'astruct':
+        return gen_astruct_value(rng, t, cat)
     if k == 'ptr':
         return gen_ptr_value(rng, t, cat)
     if k == 'fnptr':
@@ -328,6 +348,36 @@ def gen_field_inits(rng, t, cat):
             v = ["float", d2hex(1.25)]
         vals.append(v)
     return vals
+
+
+def nest(items, dims):
+    """shape a flat list of item specs into nested ['list', ...] initializers"""
+    if not dims:
+        return items[0]
+    step = len(items) // dims[0]
+    return ["list", [nest(items[i * step:(i + 1) * step], dims[1:]) for i in range(dims[0])]]
+
+
+def astruct_init(rng, t):
+    flat = cc.ASTRUCTS[t][1]
+    items = [plain_item(rng, ft) for ft in flat]
+    out, pos = [], 0
+    for dims in cc.ASHAPES[t]:
+        n = 1
+        for d in dims:
+            n *= d
+        out.append(nest(items[pos:pos + n], dims))
+        pos += n
+    return ["list", out]
+
+
+def gen_astruct_value(rng, t, cat):
+    if cat == "valid":
+        init = astruct_init(rng, t)
+        return ["deref", t, init] if rng.random() < 0.65 else init
+    other = rng.choice([s for s in sorted(cc.ASTRUCTS) if s != t])
+    return rng.choice([["int", 0], ["none"], ["deref", other, astruct_init(rng, other)], ["float", d2hex(0.0)],
+                       ["deref", "struct s1", ["list", [["int", 1], ["int", 2]]]]])
 
 
 def gen_struct_value(rng, t, cat):
@@ -439,7 +489,7 @@ def avail_bytes(t, spec):
 
 
 ALLT = sorted(cc.INTS) + ['_Bool'] + sorted(cc.CHARS) + sorted(cc.FLOATS) + sorted(cc.PTRS) + sorted(cc.STRUCTS) \
-    + [cc.FNPTR]
+    + sorted(cc.ASTRUCTS) + [cc.FNPTR]
 
 
 def const_for(rng, t):
@@ -459,6 +509,8 @@ def const_for(rng, t):
         return d2hex(x)
     if k == 'struct':
         return [const_for(rng, ft) for fn, ft in cc.STRUCTS[t]]
+    if k == 'astruct':
+        return [const_for(rng, ft) for ft in cc.ASTRUCTS[t][1]]
     if k == 'ptr':
         return rng.choice([None, 0, 8, 24])
     raise KeyError(t)
@@ -471,7 +523,7 @@ def gen_sig(rng, i):
     weights = rng.choice(["mixed", "mixed", "ints", "ptrs", "small", "fp"])
     pool = {"mixed": ALLT, "ints": sorted(cc.INTS) + ['_Bool'] + sorted(cc.CHARS), "ptrs": sorted(cc.PTRS) + ['int', cc.FNPTR],
             "small": ['int8_t', 'uint8_t', 'int16_t', 'uint16_t', '_Bool', 'char', 'char16_t', 'struct s4', 'float'],
-            "fp": sorted(cc.FLOATS) + ['struct s5', 'struct s2', 'int', 'struct s3', 'struct s6']}[weights]
+            "fp": sorted(cc.FLOATS) + ['struct s5', 'struct s2', 'int', 'struct s3', 'struct s6'] + sorted(cc.ASTRUCTS)}[weights]
     args = [rng.choice(pool) for _ in range(nargs)]
     r = rng.random()
     rpool = [t for t in ALLT if t != cc.FNPTR] + ['void']
@@ -592,6 +644,11 @@ def generate(ctx):
         # directed: one signature per integer type echoing its argument, so every bound is exercised
         for t in sorted(cc.INTS) + ['_Bool', 'char', 'wchar_t', 'char16_t', 'float', 'double', 'long double']:
             sigs.append(dict(name="f%d" % len(sigs), res=t, args=[t], ret=["arg", 0], directed=True))
+        # structs whose array fields fb_fill_type has to flatten (2 and 3 dimensions; <= 16 bytes in registers, 17..32 in
+        # memory), as argument and as result, alone and after/before another argument
+        for t in sorted(cc.ASTRUCTS):
+            sigs.append(dict(name="f%d" % len(sigs), res=t, args=[t], ret=["arg", 0]))
+            sigs.append(dict(name="f%d" % len(sigs), res=t, args=["int", t, "double"], ret=["const", const_for(rng, t)]))
         calls = []
         for si in range(len(sigs)):
             if sigs[si].get("directed") and b == 0:
@@ -730,11 +787,14 @@ def evaluate_batch(ctx, batch, asan):
                           % (o["exc"], describe(sig, call)))
         if any("bad" in c or c in ("oor", "wrong", "arity") for c in call["cats"]):
             ctx.nontrivial(("err", sig["res"], sig["args"], call["args"]))
-        elif any(cc.kind(t) in ('ptr', 'struct') for t in sig["args"]) or sig.get("variadic"):
+        elif any(cc.kind(t) in ('ptr', 'struct', 'astruct') for t in sig["args"]) or sig.get("variadic"):
             ctx.nontrivial(("agg", sig["res"], sig["args"], call["args"]))
         # ---- correspondence with the model
         if partial_struct_arg(sig, call):
             ctx.hist("struct_init", "partial")      # regression for the fixed finding partial_struct_init
+        if any(cc.kind(t) == 'astruct' and a[0] in ("list", "tuple") for t, a in zip(sig["args"], call["args"])):
+            ctx.hist("model", "unmodelled")         # nested-list initializers of array fields: four-path comparison only
+            continue
         try:
             if sig.get("variadic"):
                 ts = clist(["(Prim (PI 4 true))", "(Ptr %s)" % item_lit("char")])
